@@ -86,6 +86,42 @@ class EndpointRoles:
     def is_extent(self, b):
         return any(b == e for e in self.extents)
 
+    ROLE_VECS = {"ns": {"P": 1}, "ne": {"P": 1, "E": 1}, "os": {"S": 1}, "oe": {"S": 1, "L": 1}}
+
+    def difference_roles(self, a, b):
+        """(x, y) with a - b == role x - role y as affine forms over the four leaves (request start P, request length
+        E, area start S, area length L), e.g.  len  vs  area_end - address  is  ne  vs  oe. Wrap-around of the
+        subtractions is not modelled here (overflow checks are C08.total's)."""
+        d = U.affine_norm(("bin", "Sub", a, b, 64))
+        if d[1] != 0:
+            return None
+        vec = {}
+        for leaf, c in d[0].items():
+            l = strip_all(leaf)
+            if l == self.point:
+                k = "P"
+            elif self.is_extent(l):
+                k = "E"
+            elif is_area_field(l, "start"):
+                k = "S"
+            elif is_area_field(l, "length"):
+                k = "L"
+            else:
+                return None
+            vec[k] = vec.get(k, 0) + c
+        vec = {k: v for k, v in vec.items() if v}
+        for x, vx in self.ROLE_VECS.items():
+            for y, vy in self.ROLE_VECS.items():
+                if x == y:
+                    continue
+                diff = dict(vx)
+                for k, v in vy.items():
+                    diff[k] = diff.get(k, 0) - v
+                diff = {k: v for k, v in diff.items() if v}
+                if diff == vec:
+                    return x, y
+        return None
+
 
 def make_cmp_oracle(roles, unroled):
     def oracle(path, op, a, b):
@@ -94,9 +130,13 @@ def make_cmp_oracle(roles, unroled):
             return None
         ra, rb = roles.role(a), roles.role(b)
         if ra is None or rb is None:
-            if ra is not None or rb is not None:
-                unroled.append((op, A.show(a), A.show(b)))
-            return None
+            dr = roles.difference_roles(a, b) if hasattr(roles, "difference_roles") else None
+            if dr is not None and all(r in o for r in dr):
+                ra, rb = dr
+            else:
+                if ra is not None or rb is not None:
+                    unroled.append((op, A.show(a), A.show(b)))
+                return None
         x, y = o[ra], o[rb]
         return int({"Eq": x == y, "Ne": x != y, "Lt": x < y, "Le": x <= y, "Gt": x > y, "Ge": x >= y}[op])
     return oracle
